@@ -111,6 +111,28 @@ theorem lastIndexByte_notMem (c : UInt8) (s : Bytes) (h : c ∉ s) :
     lastIndexByte s ((c.toNat : Nat) : Int) = -1 := by
   unfold lastIndexByte; rw [mkByte_byte]; exact lastIndexByteAux_notMem c s 0 _ h
 
+/-- the same with the byte given as the integer literal the generated code passes -/
+theorem lastIndexByte_split_lit (c : UInt8) (n : Int) (hn : mkByte n = c) (a b : Bytes) (h : c ∉ b) :
+    lastIndexByte (a ++ c :: b) n = (a.length : Int) := by
+  unfold lastIndexByte; rw [hn, lastIndexByteAux_split c a b 0 _ h]; simp
+
+theorem lastIndexByte_notMem_lit (c : UInt8) (n : Int) (hn : mkByte n = c) (s : Bytes) (h : c ∉ s) :
+    lastIndexByte s n = -1 := by
+  unfold lastIndexByte; rw [hn]; exact lastIndexByteAux_notMem c s 0 _ h
+
+/-- `s[:i+1]` at a split point keeps the separator -/
+theorem sliceTo_split_succ (a b : Bytes) (c : UInt8) :
+    sliceTo (a ++ c :: b) ((a.length : Int) + 1) = .ok (a ++ [c]) := by
+  have : ((a.length : Int) + 1) = ((a.length + 1 : Nat) : Int) := by simp
+  rw [this, sliceTo_natCast (by simp)]
+  have h2 : a ++ c :: b = (a ++ [c]) ++ b := by simp
+  rw [h2, List.take_left' (by simp)]
+
+theorem sliceFrom_split_succ (a b : Bytes) (c : UInt8) :
+    sliceFrom (a ++ c :: b) ((a.length : Int) + 1) = .ok b := by
+  have : ((a.length : Int) + 1) = ((a.length + 1 : Nat) : Int) := by simp
+  rw [this, sliceFrom_natCast (by simp)]; simp
+
 /-- strings.Count with a one-byte separator counts the occurrences of that byte -/
 theorem countAux_single (c : UInt8) : ∀ (f : Nat) (s : Bytes), s.length < f →
     countAux [c] f s = s.count c
